@@ -408,6 +408,8 @@ def units(tier, seed):
             us.append(unit_pointwise_inner(field, wtd))
     us.append(unit_pointwise_inner('real', True, k=3))
     us.append(unit_operator_pool_bounded())
+    from contracts import blocklib
+    us.extend(blocklib.units('adjoint'))
     us.append(unit_canary())
     return us
 
@@ -445,6 +447,12 @@ def replay_pointwise_inner(ob):
 
 
 def replay(ob):
+    if ob.get('unit', '').startswith('block/'):
+        from contracts import blocklib
+        try:
+            return blocklib.native_replay(ob)
+        except Exception as e:
+            return {'reproduced': False, 'detail': 'replay harness error: %r' % (e,)}
     if ob.get('unit', '').startswith('operator-pool/'):
         from contracts import oppool
         try:
